@@ -30,7 +30,7 @@ REACH = [("yamlpath/processor.py", "_collector_addition,_collector_subtraction,_
          ("yamlpath/processor.py", "_get_optional_nodes", "Processor._get_optional_nodes"),
          ("yamlpath/common/nodes.py", "wrap_type,build_next_node,append_list_element", "wrap_type / build_next_node / append_list_element")]
 SIZES = {"quick": dict(reads=120000, creates=15000), "thorough": dict(reads=3000000, creates=300000)}
-REQUIRED_COUNTERS = ["purity_checked", "collector_reads", "create_steps", "optional_existing_reads", "null_sibling_cases",
+REQUIRED_COUNTERS = ["same_hash_collected_twice", "purity_checked", "collector_reads", "create_steps", "optional_existing_reads", "null_sibling_cases",
                      "merge_source_creation_cases"]
 
 SEEDS = [
@@ -95,6 +95,9 @@ def shared_hash_doc(rng):
     ks = ["x", "y", "z", "w"]
     def h():
         return "{" + ", ".join("%s: %s" % (k, rng.choice(["1", "2", "a"])) for k in rng.sample(ks, rng.randrange(1, 4))) + "}"
+    if rng.random() < 0.3:
+        # the same Hash reachable under two names (anchor + alias): a Collector then gathers ONE object twice
+        return "{h: &H %s, g: %s, l: [%s, %s], s: %s, h2: *H}" % (h(), h(), h(), h(), rng.choice(["1", "a", "[1, 2]"]))
     return "{h: %s, g: %s, l: [%s, %s], s: %s}" % (h(), h(), h(), h(), rng.choice(["1", "a", "[1, 2]"]))
 
 
@@ -209,6 +212,12 @@ def run_shard(ctx):
                 segs = None
                 path_override = rng.choice(["(%s)-(%s.%s)", "(%s)-(%s)", "(%s)&(%s.%s)", "(%s.*)-(%s.%s)", "(%s)+(%s)-(%s)"])
                 path_override = path_override % ((a, b, k)[:path_override.count("%s")])
+                if rng.random() < 0.3:
+                    # one Hash gathered more than once on the left (named twice, or through its alias), then pairs subtracted
+                    twin = "h2" if "h2: *H" in text and rng.random() < 0.6 else "h"
+                    path_override = rng.choice(["(h)+(%s)-(%s.%s)", "(/h)+(/%s)-(/%s/%s)", "(h)+(%s)+(h)-(%s.%s)", "(%s)+(h)-(%s.*)"])
+                    path_override = path_override % ((twin, rng.choice(["g", "l[0]"]), k)[:path_override.count("%s")])
+                    ctx.count("same_hash_collected_twice")
                 kind = "collector"
             elif rng.random() < 0.35:
                 path_override = None
